@@ -167,16 +167,22 @@ CLAIMS["C13"] = dict(
 
 CLAIMS["C14"] = dict(
     category="other",
-    text=("Proof by construction, checked structurally on every statement of DofManager and the assembler: isBc starts all False "
-          "and is set only at (node set, component) of each essential BC; isUnknown is its complement; ids enumerates all dofs; "
-          "unknownIndices/bcIndices select ids with those masks; dofToUnknown is -1 except arange at unknownIndices; create_field "
-          "scatters with exactly the masks the getters gather with; sizes count the same masks; slicing composes mask and map on "
-          "the same slice; Hessian coordinates and mask iterate the same connectivity, the mask clears exactly rows and columns of "
-          "constrained dofs, coordinates go through the map for dofs selected by isUnknown (n^2 per element, tile and transpose), "
-          "and the assembler pairs kValues[mask] with them in an nUnknowns x nUnknowns matrix. NumPy indexing semantics are "
-          "trusted, not mechanised."),
-    design_ref="DESIGN.md section 4, C14",
-    technique="static analysis: mask-provenance / role checking of each attribute definition and method over the AST with reaching definitions")
+    text=("Proof by construction on the source of DofManager and the assembler, by symbolic interpretation over arrays of symbolic shape "
+          "(index-set algebra, rules/dofalg.py): the constructor is interpreted for a symbolic mesh, number of fields and list of essential "
+          "BCs; every attribute and every public method result is reduced to a closed normal-form term and compared with the term the "
+          "property needs: isBc is all-False of field shape set True exactly at (nodeSets[bc.nodeSet], bc.component) of every BC; isUnknown "
+          "is its complement; ids = arange(all dofs) in field shape; unknownIndices/bcIndices = ids selected by those masks; dofToUnknown = "
+          "-1 everywhere, arange(number of unknowns) at the unknown dofs; create_field scatters Ubc/Uu with exactly the masks the getters "
+          "gather with; sizes are the counts of the same masks (and add up to the number of dofs); slicing applies mask and map to the same "
+          "slice; per element the Hessian coordinates are the unknown numbers of the element's unconstrained dofs tiled n times and the "
+          "transposed tile, concatenated over all elements (n^2 entries each, array length = their sum), the Hessian mask block is "
+          "outer_and(unknown flags, unknown flags) for the same connectivity, and the assembler pairs kValues.reshape(nEl, d, d)[mask] with "
+          "those coordinates in an nUnknowns x nUnknowns matrix. Renamed locals, temporaries, extracted helpers, keyword arguments, loops "
+          "over range/enumerate, list-append + concatenate, and equivalent NumPy idioms reduce to the same terms; an operation the "
+          "interpreter does not model makes the obligation undecided (exit 2), never refuted. NumPy indexing semantics are modelled by the "
+          "algebra's rewrite rules, not mechanised."),
+    design_ref="DESIGN.md section 4, C14 and section 11.8",
+    technique="static analysis: abstract (symbolic) interpretation of the source over an index-set term algebra with normal forms; comparison with specification terms")
 
 CLAIMS["C08"] = dict(
     category="other",
